@@ -23,6 +23,9 @@ import Rooc.Proofs.BuilderHistLemmas
 import Rooc.Proofs.ComposeSolver
 import Rooc.Proofs.TextTwin
 import Rooc.Proofs.PipesLemmas
+import Rooc.Gen.PipeTable
+import Rooc.Proofs.ComposeSolverExamples
+import Rooc.Proofs.ComposeExamples
 import Rooc.Proofs.Compose
 import Rooc.Props.C03
 namespace Rooc.Props.C16
@@ -493,6 +496,60 @@ theorem builder_text_same_verdict {bm tm : Model (Ext K)} (h : TextTwin bm tm) (
 
 end twin
 
+/-! ### 9b. `solve_with(Auto)` end to end: what is read back through the handles
+
+`BState.solveWith` is `ModelBuilder::solve_with` (`linearize()?`, `solver.solve(&linearized)?`, wrap with the names); with the
+`Auto` solver the solver argument is `auto_solver` = `SolverWrap.wrapAuto` around microlp's raw answer, i.e. the builder door
+runs `Compose.oneShot` on the model of its history.  Under the hypotheses of `Props.C03.c03_default_solver_logic_partial`
+(the compile contract on the model and the recorded assumption `SolverSpec` about microlp) the returned `BuilderSolution`
+denotes an assignment that satisfies the model, puts EVERY declared variable — used in an expression or not — inside its
+domain, and `eval(objective expression)` through the handles IS the reported `value()`. -/
+section solveWith
+variable {K : Type} [Field K] [LinearOrder K] [IsStrictOrderedRing K] [FloorRing K]
+open Rooc.Compose Rooc.LinP Rooc.Sem
+open Rooc.SolverWrap (MlpOutcome wrapAuto)
+
+theorem c16_builder_solve_logic_partial {mlp : LinModel (Ext K) → MlpOutcome (Ext K)} (ops : List (Op (Ext K)))
+    {m : Model (Ext K)} (hm : (run (BState.new : BState (Ext K)) ops).1.intoModel = some m)
+    {t : K} (ht : 0 ≤ t) {maxSteps : Nat} {lm : LinModel (Ext K)}
+    (h : Compile.linearize m (.fin t) maxSteps = .ok lm)
+    (hlm : LogicModel m m.domain) (hsh : AssertShape m) (hok : DeclOK m.domain)
+    (ht1 : t < 1 ∨ NoIntegerVars m.domain) (hspec : SolverSpec lm (mlp lm))
+    {bs : BSolution (Ext K)}
+    (hs : (run (BState.new : BState (Ext K)) ops).1.solveWith (.fin t) maxSteps (fun lm => wrapAuto lm (mlp lm)) = .ok bs)
+    (hst : bs.solution.status = .optimal)
+    (hfin : ∀ n val, bs.solution.valueOf n = some val → ∃ k : K, val.toNum = .fin k) :
+    srcFeasible m (assignmentOf bs.solution) = true ∧
+    (∀ p ∈ (run (BState.new : BState (Ext K)) ops).1.domain, inDomain (assignmentOf bs.solution p.1) p.2 = true) ∧
+    (∀ ot oe, (run (BState.new : BState (Ext K)) ops).1.objective = some (ot, oe) → bs.eval oe = bs.value) := by
+  have hi := run_inv ops (inv_new (α := Ext K))
+  -- unfold `solve_with`
+  have hsol : wrapAuto lm (mlp lm) = .ok bs.solution ∧
+      bs.variableNames = (run (BState.new : BState (Ext K)) ops).1.variableNames := by
+    unfold BState.solveWith at hs
+    simp only [hm, h] at hs
+    cases hw : wrapAuto lm (mlp lm) with
+    | ok sol => simp only [hw, BRes.ok.injEq] at hs; subst hs; exact ⟨rfl, rfl⟩
+    | err v => simp [hw] at hs
+    | panic => simp [hw] at hs
+  obtain ⟨ho, w, hw, hobj⟩ := hspec.optimal bs.solution hsol.1 hst
+  have hc := compilesTo_of_compile_logic ht h hlm hsh hok ht1
+  have hfeas := src_of_lin hc ho.feasible
+  have hm' := hm
+  rw [history_intoModel] at hm'
+  refine ⟨hfeas, fun p hp => intoModel_feasible_inDomain hm' hfeas p hp, ?_⟩
+  intro ot oe hobjE
+  obtain ⟨_, hto⟩ := intoModel_objective hm' hobjE
+  have hval : Sem.eval (assignmentOf bs.solution) m.objective = some w := by
+    obtain ⟨v, hopt, hlv⟩ := optimal_transfer hc ho
+    rw [hobj] at hlv; cases hlv
+    exact hopt.value
+  have := solution_eval_eq_semEval bs hfin (e := oe) (e' := m.objective) (v := w)
+    (by rw [hsol.2, hi.keys]; exact hto) hval
+  rw [this, BSolution.value, hw]
+
+end solveWith
+
 /-! ### 10. the staged pipe runner is function composition (`Rooc/Pipes.lean`, diffed on arbitrary pipe sequences) -/
 section pipes
 open Rooc.Pipes
@@ -539,6 +596,16 @@ theorem builtin_spec {P : Type} (k : PipeKind) (f : P → Option P) (t : DataTy)
   · intro h; simp [builtin, h]
   · intro h; subst h; simp only [builtin, bne_self_eq_false, Bool.false_eq_true, if_false]
     cases k.output <;> cases f p <;> rfl
+
+/-- THE TIE TO THE SOURCE: the typing table of the model is the table `tools/extract.py` re-reads from
+`pipe/pipe_executors.rs` on every run (`Rooc/Gen/PipeTable.lean`: for each `impl Pipeable`, the `as_X()?` it reads, the
+`PipeableData` variant it returns, the `PipeError` variant it wraps its failure in) — a pipe added, removed or rewired in
+the Rust source makes this proof obligation fail. -/
+theorem pipe_table_agrees : Pipes.modelTable = Gen.pipeTable := by decide +kernel
+
+/-- likewise the `format!` string of `add_vars` member names, which `Builder.familyName` implements. -/
+theorem familyName_format : Gen.familyNameFormat = "{name}_{i}" ∧
+    ∀ (name : String) (i : Nat), familyName name i = name ++ "_" ++ toString i := ⟨by decide +kernel, fun _ _ => rfl⟩
 
 /-- the preset the doors use — `Compiler, PreModel, Model, LinearModel, AutoSolver` — is well typed: from a `String` it
 yields the six data `String, Parser, PreModel, Model, LinearModel, MILPSolution` when no stage function fails. -/
@@ -706,6 +773,47 @@ theorem builder_text_counterexample :
     ⟨rfl, rfl, rfl, rfl⟩, by decide, by decide, by decide, ?_, [("x", 1)], ?_⟩
   · rw [fieldExact_rat]; decide +kernel
   · rw [fieldExact_rat]; decide +kernel
+
+open Rooc.Compose Rooc.LinP Rooc.SolverWrap in
+/-- non-vacuity (every tolerance `t ≥ 0`, step limit 0): the history `x, y Boolean; c: x <= y; minimize x` builds `exBool`;
+for microlp's answer `outBool` the assumption `SolverSpec` HOLDS (`solverSpec_lmBool`), `solve_with` hands back `solBool`
+with the names `["x", "y"]`, and the theorem concludes that `eval(x)` through the handle is the reported value 0. -/
+example (t : ℚ) (ht : 0 ≤ t) :
+    BSolution.eval { solution := (solBool : SolverWrap.Solution (Ext ℚ)), variableNames := ["x", "y"] } (.var "0") = .fin 0 := by
+  let ops : List (Op (Ext ℚ)) :=
+    [.addVar "x" .bool, .addVar "y" .bool, .with_ (bcNew (.var "0") .le (.var "1") "c"), .minimize (.var "0")]
+  have hm : (run (BState.new : BState (Ext ℚ)) ops).1.intoModel = some (exBool : Model (Ext ℚ)) := by
+    simp [ops, run, step, addVar, BState.new, BState.intoModel, toConstraint, bcNew, toExp, i0, i1, Compose.exBool]
+  have hc := exBool_compile0 (K := ℚ) (.fin t)
+  have hs : (run (BState.new : BState (Ext ℚ)) ops).1.solveWith (.fin t) 0 (fun lm => wrapAuto lm outBool) =
+      .ok { solution := solBool, variableNames := ["x", "y"] } := by
+    unfold BState.solveWith
+    rw [hm]
+    simp only [hc, wrapAuto_lmBool]
+    simp [ops, run, step, addVar, BState.new]
+  have hfin : ∀ n val, (solBool : SolverWrap.Solution (Ext ℚ)).valueOf n = some val → ∃ k : ℚ, val.toNum = .fin k := by
+    intro n val hv
+    have hval : val = .bool false := by
+      simp only [SolverWrap.Solution.valueOf, solBool, SolverWrap.buildAssignmentMap, SolverWrap.imGet,
+        List.foldl_cons, List.foldl_nil, List.any_nil, List.nil_append, List.any_cons, Bool.false_eq_true, if_false,
+        Bool.or_false] at hv
+      have hne : (("x" : String) == "y") = false := by decide
+      simp only [hne, Bool.false_eq_true, if_false, List.cons_append, List.nil_append, List.find?_cons] at hv
+      by_cases h1 : (("x" : String) == n) = true
+      · simp only [h1] at hv; simpa using hv.symm
+      · have h1' : (("x" : String) == n) = false := by simpa using h1
+        simp only [h1'] at hv
+        by_cases h2 : (("y" : String) == n) = true
+        · simp only [h2] at hv; simpa using hv.symm
+        · have h2' : (("y" : String) == n) = false := by simpa using h2
+          simp [h2'] at hv
+    subst hval
+    exact ⟨0, by simp [SolverWrap.Val.toNum]⟩
+  have := (c16_builder_solve_logic_partial (mlp := fun _ => outBool) ops hm ht hc (LogicModel.ofFragModel exBool_frag)
+    (assertShape_of_fragModel exBool_frag) exBool_declOK (Or.inr exBool_noInt) solverSpec_lmBool hs rfl hfin).2.2
+    .min (.var "0") (by simp [ops, run, step, addVar, BState.new])
+  simpa [BSolution.value, solBool] using this
+
 
 end examples
 
